@@ -11,7 +11,13 @@ import (
 // HashGlobals hashes the contents of package-level variables (given as
 // pointers), skipping the internals of vsync objects (clocks differ between
 // schedules by construction).
-func HashGlobals(ptrs map[string]any) [32]byte {
+func HashGlobals(ptrs map[string]any) [32]byte { return hashGlobals(ptrs, true) }
+
+// HashGlobalsFull includes the internals of the sync shim's objects (locked
+// flags, once states, clocks): the complete memory state, for state pruning.
+func HashGlobalsFull(ptrs map[string]any) [32]byte { return hashGlobals(ptrs, false) }
+
+func hashGlobals(ptrs map[string]any, skipSync bool) [32]byte {
 	h := sha256.New()
 	names := make([]string, 0, len(ptrs))
 	for n := range ptrs {
@@ -21,11 +27,11 @@ func HashGlobals(ptrs map[string]any) [32]byte {
 	var buf [8]byte
 	var walk func(v reflect.Value, depth int)
 	walk = func(v reflect.Value, depth int) {
-		if depth > 6 {
+		if depth > 8 {
 			return
 		}
 		t := v.Type()
-		if p := t.PkgPath(); strings.HasSuffix(p, "/vsync") || strings.HasSuffix(p, "/vsync/atomic") || strings.HasSuffix(p, "/vsched") {
+		if p := t.PkgPath(); skipSync && (strings.HasSuffix(p, "/vsync") || strings.HasSuffix(p, "/vsync/atomic") || strings.HasSuffix(p, "/vsched")) {
 			return
 		}
 		switch v.Kind() {
